@@ -343,12 +343,23 @@ func cmdCheck(args []string) {
 				// paths that need minutes of virtual time are not replayed natively
 				continue
 			}
-			oc, err := rp.run(spec.Pkg, spec.Name, wit, filepath.Join(workDir, "w.json"), 90*time.Second)
+			var oc *replayOutcome
+			var err error
+			coverOK := false
+			// the native scheduler is not under our control: a witness counts as
+			// replayed if one of three attempts follows the same path
+			for attempt := 0; attempt < 3 && !coverOK; attempt++ {
+				oc, err = rp.run(spec.Pkg, spec.Name, wit, filepath.Join(workDir, "w.json"), 90*time.Second)
+				if err != nil {
+					break
+				}
+				coverOK = strings.Contains(oc.Output, "VCOVER "+lab) && !strings.Contains(oc.Output, "VASSERT-FAIL") && oc.ExitCode == 0
+			}
 			if err != nil {
 				inconclusive = append(inconclusive, fmt.Sprintf("%s: replay machinery: %v", spec.Name, err))
 				break
 			}
-			if strings.Contains(oc.Output, "VCOVER "+lab) && !strings.Contains(oc.Output, "VASSERT-FAIL") && oc.ExitCode == 0 {
+			if coverOK {
 				tracesValidated++
 			} else {
 				inconclusive = append(inconclusive, fmt.Sprintf("%s: cover witness %q does not replay natively (encoding mismatch): exit=%d out=%s", spec.Name, lab, oc.ExitCode, tail(oc.Output, 600)))
@@ -379,7 +390,14 @@ func cmdCheck(args []string) {
 				nViol++
 				continue
 			}
-			oc, err := rp.run(spec.Pkg, spec.Name, v.Witness, witPath, 90*time.Second)
+			var oc *replayOutcome
+			var err error
+			for attempt := 0; attempt < 3; attempt++ {
+				oc, err = rp.run(spec.Pkg, spec.Name, v.Witness, witPath, 90*time.Second)
+				if err != nil || reproduced(v, oc) {
+					break
+				}
+			}
 			if err != nil {
 				inconclusive = append(inconclusive, fmt.Sprintf("%s: replay machinery: %v", spec.Name, err))
 				continue
